@@ -1,5 +1,7 @@
 """Driver configuration and manifest text for C08 (see DESIGN.md)."""
 
+RULE_ADD = ' Later additions: rejoin steps (a departed member comes back with the last plan it knows of, under its old generation), joiners with wide subscriptions, subscription lists in arbitrary order.'
+
 CHECK = {'pkg': '.',
  'parts': [{'name': 'plan', 'test': 'TestVF_C08', 'shrinktime': '2s', 'quick': {'shards': 4, 'checks': 6000}, 'thorough': {'shards': 16, 'checks': 150000}}],
  'rule': 'rapid draws a strategy (range/roundrobin/sticky), 1-6 members with drawn ids, subscription sets over 1-4 topics (identical / random / '
